@@ -366,11 +366,79 @@ func (w *c33World) groundTruth(c *fw.Ctx) {
 	c.Extra("nodeset_references_compared", declared)
 }
 
+// lateType: after the address space has been browsed with every filter, the application defines a reference type
+// below HasOrderedComponent and uses it; browses with each of its supertypes and subtypes included must return the
+// new reference, browses with the exact supertypes must not.
+func (w *c33World) lateType(c *fw.Ctx) {
+	srv := w.srv
+	ns := server.NewNodeNameSpace(srv, "veriflate")
+	parent := srv.Node(ua.NewNumericNodeID(0, id.HasOrderedComponent))
+	if parent == nil {
+		c.Inconclusive("HasOrderedComponent is not in the address space")
+		return
+	}
+	lateID := ua.NewNumericNodeID(ns.ID(), 5000)
+	late := ns.AddNode(server.NewNode(lateID, server.Attributes{
+		ua.AttributeIDNodeClass:  server.DataValueFromValue(uint32(ua.NodeClassReferenceType)),
+		ua.AttributeIDBrowseName: server.DataValueFromValue(attrs.BrowseName("Feeds")),
+	}, nil, nil))
+	parent.AddRef(late, id.HasSubtype, true)
+	late.AddRef(parent, id.HasSubtype, false)
+	target := ns.AddNode(server.NewNode(ua.NewNumericNodeID(ns.ID(), 5001), server.Attributes{
+		ua.AttributeIDNodeClass:  server.DataValueFromValue(uint32(ua.NodeClassVariable)),
+		ua.AttributeIDBrowseName: server.DataValueFromValue(attrs.BrowseName("Target")),
+	}, nil, func() *ua.DataValue { return server.DataValueFromValue(int64(1)) }))
+	srcID := ua.NewNumericNodeID(ns.ID(), 5002)
+	ns.AddNode(server.NewNode(srcID, server.Attributes{
+		ua.AttributeIDNodeClass:  server.DataValueFromValue(uint32(ua.NodeClassObject)),
+		ua.AttributeIDBrowseName: server.DataValueFromValue(attrs.BrowseName("Source")),
+	}, server.References{&ua.ReferenceDescription{ReferenceTypeID: lateID, IsForward: true, NodeID: ua.NewExpandedNodeID(target.ID(), "", 0),
+		BrowseName: target.BrowseName(), DisplayName: target.DisplayName(), NodeClass: target.NodeClass(), TypeDefinition: target.DataType()}}, nil))
+	chain := []uint32{id.References, id.HierarchicalReferences, id.HasChild, id.Aggregates, id.HasComponent, id.HasOrderedComponent}
+	has := func(t *ua.NodeID, sub bool) (bool, *fw.Panic) {
+		res, pn := w.browse(&ua.BrowseDescription{NodeID: srcID, BrowseDirection: ua.BrowseDirectionForward, ReferenceTypeID: t, IncludeSubtypes: sub, ResultMask: uint32(ua.BrowseResultMaskAll)})
+		if pn != nil || res == nil {
+			return false, pn
+		}
+		for _, r := range res.References {
+			if r.NodeID != nil && r.NodeID.NodeID != nil && r.NodeID.NodeID.String() == target.ID().String() {
+				return true, nil
+			}
+		}
+		return false, nil
+	}
+	for _, sub := range []bool{true, false} {
+		for _, t := range append([]*ua.NodeID{lateID}, func() (out []*ua.NodeID) {
+			for _, x := range chain {
+				out = append(out, ua.NewNumericNodeID(0, x))
+			}
+			return
+		}()...) {
+			want := sub || t.String() == lateID.String()
+			got, pn := has(t, sub)
+			cs := c33Case{Node: srcID.String(), Direction: 0, RefType: t.String(), Subtypes: sub}
+			c.Eval(1)
+			switch {
+			case pn != nil:
+				c.Violation("c33:browse-"+pn.Key(), "Browse panicked: "+pn.Msg, cs)
+			case want && !got:
+				c.Violation("c33:missing:reference-of-a-type-defined-after-earlier-browses", fmt.Sprintf("a reference of type %s, a subtype of HasOrderedComponent defined after the address space had been browsed, is not returned for reference type %s (subtypes %v)", lateID, t, sub), cs)
+			case !want && got:
+				c.Violation("c33:extra:subtype-returned-although-not-requested", fmt.Sprintf("a reference of type %s is returned for the exact reference type %s", lateID, t), cs)
+			}
+		}
+	}
+	c.Class("late-reference-type-phase", 1)
+}
+
 func c33Run(c *fw.Ctx) error {
 	w, err := c33Build()
 	if err != nil {
 		c.Violation("c33:unfiltered-browse-fails", err.Error(), nil)
 		return nil
+	}
+	if c.Batch == 0 {
+		defer w.lateType(c)
 	}
 	if c.Batch == 0 && c.Resume == 0 {
 		w.groundTruth(c)
@@ -425,7 +493,7 @@ func init() {
 	fw.Register("C33", fw.Spec{
 		Plan: func(tier string) fw.Plan {
 			p := fw.Plan{Batches: 8, TimeoutS: 900, MinNontrivial: 10000, Level: "exploration",
-				Rule:        "in-process Namespace.Browse of the real server over the nodes discovered by breadth-first unfiltered browsing of the standard address space plus an added namespace (quick: every 23rd standard node and all added nodes; thorough: all nodes) x 3 directions x all reference types of the hierarchy (abstract ones included) + null + unknown x {subtypes, not} x class masks {0, single classes, combinations, random}; oracle: unfiltered browse filtered by direction, (type = T) or (subtypes and type in closure(T), closure computed from forward HasSubtype edges), class mask; compared as multisets; distinct = distinct browse descriptions",
+				Rule:        "in-process Namespace.Browse of the real server over the nodes discovered by breadth-first unfiltered browsing of the standard address space plus an added namespace (quick: every 23rd standard node and all added nodes; thorough: all nodes) x 3 directions x all reference types of the hierarchy (abstract ones included) + null + unknown x {subtypes, not} x class masks {0, single classes, combinations, random}; oracle: unfiltered browse filtered by direction, (type = T) or (subtypes and type in closure(T), closure computed from forward HasSubtype edges), class mask; compared as multisets; afterwards a reference type is defined below HasOrderedComponent and used, and browses with each of its six supertypes (with and without subtypes) are checked; distinct = distinct browse descriptions",
 				Assumptions: []string{"the unfiltered browse (null reference type, both directions, mask 0) is the reference set for the filter oracle; it is itself compared with ground truth: references added by the harness through Node.AddRef (incl. targets in a map namespace and never-registered targets) and the references the standard nodeset XML declares (parsed independently, lower bound)"}}
 			if tier == "thorough" {
 				p.Batches, p.TimeoutS, p.MinNontrivial = 16, 3000, 500000
